@@ -452,6 +452,16 @@ def endEvents (p : Params) (terminal : Bool) (extra : Int)
   else if p.minor_exon_extension ≥ extra ∧ extra > p.delta then [{ ty := minor, info := extra }]
   else []
 
+/-- the read exon whose overhang `categorize_exon_elongation_subtype` measures at one end of the read (repair of audit
+    finding C01-G1, `fix_fake_terminal_elongation.patch`): a short outermost exon (at most `max_fake_terminal_exon_len`) that
+    does not overlap the common split exon `s` may be excused as a fake terminal exon by the junction comparator; the read's
+    overhang over the isoform end is then the one of the NEXT exon (`read_features[1]` / `read_features[-2]`, present only
+    when the read has more than one exon) -/
+def measuredExon (p : Params) (outer : Iv) (next : Option Iv) (s : Iv) : Iv :=
+  match next with
+  | some nx => if !(overlaps outer s) && decide (interval_len outer ≤ p.max_fake_terminal_exon_len) then nx else outer
+  | none => outer
+
 def elongationEvents (g : Gene) (p : Params) (rp : ReadProf) (I : IsoInfo) : Option (List Event) :=
   let isoFirst := I.splitRange.1
   let isoLast := I.splitRange.2 - 1
@@ -460,6 +470,34 @@ def elongationEvents (g : Gene) (p : Params) (rp : ReadProf) (I : IsoInfo) : Opt
   if from1 < 0 then none else
   let cf := commonFirst (I.splitProf.drop from1.toNat) (rp.split.gene.drop from1.toNat) from1
   -- the first loop indexes both profiles up to len(split_exons): they must be long enough
+  if I.splitProf.length < g.splitExons.length ∧ cf = -1 then none else
+  if rp.split.gene.length < g.splitExons.length ∧ cf = -1 then none else
+  let from2 := min isoLast (rp.split.range.2 - 1)
+  match commonLast I.splitProf rp.split.gene (from2 + 1).toNat from2 with
+  | none => none
+  | some cl =>
+    match rp.blocks.head?, rp.blocks.getLast?, pyGet? g.splitExons cf, pyGet? g.splitExons cl with
+    | some fr, some lr, some sf, some sl =>
+      let left := if overlaps (measuredExon p fr rp.blocks[1]? sf) sf then
+          endEvents p (decide (cf = isoFirst)) (sf.1 - (measuredExon p fr rp.blocks[1]? sf).1)
+            .terminal_site_match_left_precise .terminal_site_match_left .major_exon_elongation_left .exon_elongation_left
+        else []
+      let right := if overlaps (measuredExon p lr rp.blocks.reverse[1]? sl) sl then
+          endEvents p (decide (cl = isoLast)) ((measuredExon p lr rp.blocks.reverse[1]? sl).2 - sl.2)
+            .terminal_site_match_right_precise .terminal_site_match_right .major_exon_elongation_right .exon_elongation_right
+        else []
+      some (left ++ right)
+    | _, _, _, _ => none
+
+/-- `categorize_exon_elongation_subtype` BEFORE the repair (audit finding C01-G1): the overhang is always measured on the
+    outermost read exon, so a short outermost exon outside the isoform hides any overhang of the next exon
+    (`Props/C01FakeTerminal.lean: elongationEventsOrig_witness`) -/
+def elongationEventsOrig (g : Gene) (p : Params) (rp : ReadProf) (I : IsoInfo) : Option (List Event) :=
+  let isoFirst := I.splitRange.1
+  let isoLast := I.splitRange.2 - 1
+  let from1 := max isoFirst rp.split.range.1
+  if from1 < 0 then none else
+  let cf := commonFirst (I.splitProf.drop from1.toNat) (rp.split.gene.drop from1.toNat) from1
   if I.splitProf.length < g.splitExons.length ∧ cf = -1 then none else
   if rp.split.gene.length < g.splitExons.length ∧ cf = -1 then none else
   let from2 := min isoLast (rp.split.range.2 - 1)
